@@ -86,8 +86,17 @@ class Family:
                 obs_all.append(self.run_impl(c))
             except Exception as ex:      # any exception escaping the implementation is an observation
                 obs_all.append({"err": type(ex).__name__ + ": " + str(ex)[:200]})
-        good = [i for i, o in enumerate(obs_all) if not self.is_err(o)]
-        terms = [self.coq_case(cases[i], obs_all[i]) for i in good]
+        good, terms = [], []
+        for i, o in enumerate(obs_all):
+            if self.is_err(o):
+                continue
+            try:
+                # an observation the harness cannot even write down (an internal function of the tree
+                # under test returned something of another shape) is a failure of that case
+                terms.append(self.coq_case(cases[i], o))
+                good.append(i)
+            except Exception as ex:
+                obs_all[i] = {"err": "observation not expressible: " + type(ex).__name__ + ": " + str(ex)[:200]}
         funcs = [self.corr, self.oracle] + list(self.dom_funcs.values())
         funcs = list(dict.fromkeys(funcs))
         res = (eval_cases(self.prop, self.header, self.case_type, terms, funcs,
